@@ -187,7 +187,7 @@ fn target_kinds(body: &[J], i: usize) -> Vec<&'static str> {
 fn modes_at(body: &[J], i: usize) -> Vec<&'static str> {
     let o = body[i]["o"].as_str().unwrap();
     let mut m = vec!["before", "after"];
-    if o == "op" || o == "nop" {
+    if o == "op" || o == "nop" || i + 1 == body.len() {
         m.push("alternate");
         m.push("empty_alternate");
     }
